@@ -42,7 +42,7 @@ FUTURE = 10**7  # tick far beyond anything the harness hands out (year > 2100)
 @st.composite
 def _case(draw, tier):
     big = tier == "thorough"
-    desc = draw(gen.wellformed(wf_wds=(None, None, "wdir"), max_targets=10 if big else 6, max_files=14 if big else 9, ticks=5, min_targets=2,
+    desc = draw(gen.wellformed(wf_wds=(None, None, "wdir"), wds=(None, None, None, "w1"), max_targets=10 if big else 6, max_files=14 if big else 9, ticks=5, min_targets=2,
                                shapes=(0, 2, 4, 5, 7, 3), spellings=(0, 1, 2, 4)))
     names = [t["name"] for t in desc["targets"]]
     vec = {n: draw(st.sampled_from(["unknown"] * 5 + ["completed"] * 3 + ["submitted", "running", "failed", "cancelled"]))
